@@ -954,3 +954,67 @@ func everReleasesDB(c *Ctx, lm *LockModel, g *ssa.Function, seen map[*ssa.Functi
 	}
 	return false
 }
+
+const textWatchDB = "R-C10-watch-db: when the watch list of a connection is evaluated, the database asked about a watched key is the one recorded in the watch entry itself (the entry is keyed by database and name), never the connection's currently selected database — WATCH k; SELECT n; MULTI; EXEC must still notice a change of k in the database where it was watched"
+
+func ruleC10WatchDB(c *Ctx) {
+	c.S.Rule("R-C10-watch-db", textWatchDB, 1)
+	fWatches := c.Field("clientState", "watches")
+	if fWatches == nil {
+		c.S.Undecided("R-C10-watch-db", "anchor", "-", "clientState.watches not found")
+		return
+	}
+	n := 0
+	for _, fn := range c.SrcFuncs() {
+		var rng *ssa.Range
+		for _, in := range instrsOf(fn) {
+			if r, ok := in.(*ssa.Range); ok {
+				if _, f := loadedField(r.X); f == fWatches {
+					rng = r
+				}
+			}
+		}
+		if rng == nil {
+			continue
+		}
+		isSrc := func(v ssa.Value) bool { return v == rng.X }
+		k := 0
+		for _, in := range instrsOf(fn) {
+			call, ok := in.(*ssa.Call)
+			if !ok || !blockInCycle(call.Block()) {
+				continue
+			}
+			g := call.Call.StaticCallee()
+			if g == nil || g.Signature.Recv() == nil || !c.isPkgType(g.Signature.Recv().Type(), "dataStore") || len(call.Call.Args) == 0 {
+				continue
+			}
+			k++
+			n++
+			key := fmt.Sprintf("%s:%s#%d", fnName(fn), g.Name(), k)
+			recv := call.Call.Args[0]
+			fromEntry := rangeSource(recv, isSrc, nil)
+			if !fromEntry {
+				// the entry (a struct key) copied into a local: watch := <key>; watch.ds
+				if u, ok := recv.(*ssa.UnOp); ok {
+					if fa, ok := u.X.(*ssa.FieldAddr); ok {
+						if al, ok := fa.X.(*ssa.Alloc); ok {
+							for _, r := range referrers(al) {
+								if st, ok := r.(*ssa.Store); ok && st.Addr == ssa.Value(al) && rangeSource(st.Val, isSrc, nil) {
+									fromEntry = true
+								}
+							}
+						}
+					}
+				}
+			}
+			if fromEntry {
+				c.S.OK("R-C10-watch-db", key, c.Pos(call.Pos()), "the database comes from the watch entry")
+			} else {
+				c.S.Bad("R-C10-watch-db", key, c.Pos(call.Pos()), fmt.Sprintf("%s asks a database that is not taken from the watch entry (the connection's current database?) about the watched key: after a SELECT the wrong keyspace is consulted", fnName(fn)))
+			}
+		}
+	}
+	if n == 0 {
+		c.S.Undecided("R-C10-watch-db", "sites", "-", "no loop over the watch list that consults a database was found")
+	}
+}
